@@ -1495,7 +1495,21 @@ fn gen_record(rng: &mut Rng, h: &Hdr, big: bool) -> Rec {
             if d.name == "GT" {
                 let pl = *rng.pick(&[1usize, 2, 2, 3]);
                 for _ in 0..h.samples {
-                    let g: Vec<(Option<usize>, bool)> = (0..pl).map(|_| (if rng.chance(1, 6) { None } else { Some(rng.below(3) as usize) }, rng.chance(1, 2))).collect();
+                    // allele indices at and around the int8 coding limit: (allele + 1) << 1 | phased fits an
+                    // i8 up to allele 62; 63 and above must be refused by the writer, never wrapped
+                    let hi = rng.chance(1, 12);
+                    let g: Vec<(Option<usize>, bool)> = (0..pl)
+                        .map(|_| {
+                            let a = if rng.chance(1, 6) {
+                                None
+                            } else if hi && rng.chance(1, 2) {
+                                Some(*rng.pick(&[61usize, 62, 63, 64, 126, 127, 128, 255, 256]))
+                            } else {
+                                Some(rng.below(3) as usize)
+                            };
+                            (a, rng.chance(1, 2))
+                        })
+                        .collect();
                     col.push(Val::Gt(if h.v44 { g } else { norm_gt(&g, false) }));
                 }
             } else {
